@@ -721,7 +721,9 @@ def layers_for(ctx: Ctx) -> list[dict]:
     ]
 
 
-def run(ctx: Ctx, layers: list[dict] | None = None, batch: int | None = None) -> Result:
+def run(ctx: Ctx, layers: list[dict] | None = None, batch: int | None = None, stride: int = 1) -> Result:
+    """`layers`, `batch`, `stride` are for development drivers only (a sub-space / every stride-th tree);
+    the runner always calls run(ctx)."""
     layers = layers if layers is not None else layers_for(ctx)
     jobs: list[dict] = []
     layer_info = []
@@ -735,7 +737,7 @@ def run(ctx: Ctx, layers: list[dict] | None = None, batch: int | None = None) ->
                 total_with_mirrors += sum(1 for t in T.dir_contents(layer["depth"], n) if T.tree_depth(t) >= layer["min_depth"])
             else:
                 total_with_mirrors += T.count_all(layer["depth"], n)
-            trees.extend(ts)
+            trees.extend(ts[::stride])
         per = batch or max(2, min(60, 2400 // max(1, len(layer["configs"]) * (6 if layer["plan"]["orders"] == "all" else 3)),
                                   -(-len(trees) // 96)))
         for ch in chunked(trees, per):
@@ -800,7 +802,7 @@ def run(ctx: Ctx, layers: list[dict] | None = None, batch: int | None = None) ->
                 "build.build runs) both completed with identical diagnostics that include at least one import resolved to a "
                 "file of the tree (a 'Revealed type is \"<module>.F<k>\"' line)",
         "cases": tot["cases"],
-        "exhaustive": all(li["complete"] for li in layer_info),
+        "exhaustive": stride == 1 and all(li["complete"] for li in layer_info),
         "layers": layer_info,
         "bounds": "names {a,b}; node kinds X.py, X.pyi, dir with any subset of {__init__.py, __init__.pyi}; a<->b mirror images once; "
                   "options {ns off, ns on, ns on + explicit_package_bases}; MYPYPATH {unset, last top-level dir}; "
